@@ -286,8 +286,12 @@ class UnitRegistry:
         return equiv
 
     def __deepcopy__(self, memodict=None):
-        lut = copy.deepcopy(self.lut)
-        return type(self)(lut=lut)
+        # the entries are immutable tuples; copying them deeply would replace
+        # unyt's dimension symbols by equal but not identical ones
+        lut = dict(self.lut)
+        return type(self)(
+            add_default_symbols=False, lut=lut, unit_system=self.unit_system
+        )
 
 
 class _NonModifiableUnitRegistry(UnitRegistry):
